@@ -669,3 +669,75 @@ def atomicity_problems(spec, model, fs, planted=None):
         elif c != t["content"]:
             problems.append(("partial-output", "final path %r holds %r, the complete output is %r" % (p, (c or "")[:40], t["content"][:40])))
     return problems
+
+
+# ------------------------------------------------------------------ replay of a reported case
+
+class RawSpec:
+    """a workflow spec given as the text of a replay file (the line format wfrun and the model driver read)"""
+    def __init__(self, text, bufsize=None):
+        self.lines = [l for l in text.splitlines() if l.strip()]
+        self.bufsize = bufsize
+        self.files = {}
+        self.max = 4
+        self.runto = None
+        self.nodes = []
+        for l in self.lines:
+            t = l.split()
+            if t[0] == "FILE":
+                self.files[unhx(t[1])] = unhx(t[2]) if len(t) > 2 else ""
+            elif t[0] == "MAX":
+                self.max = int(t[1])
+
+    def text(self, with_files=True):
+        return "\n".join(l for l in self.lines if with_files or not l.startswith("FILE ")) + "\n"
+
+    def procs(self):
+        return []
+
+
+def replay_generic(r):
+    """re-run the workflow of a replay file on the model and on the implementation and show where they differ;
+    exit status 1 when the run again contradicts the model / the property, 0 when it does not reproduce"""
+    import json
+    print("property %s: %s" % (r.get("property"), (r.get("what") or "")[:600]))
+    if not r.get("spec"):
+        for k in ("kind", "theorem_or_correspondence", "input_line", "identity", "impl", "model", "detail", "disagreements"):
+            if r.get(k) is not None:
+                print("  %s: %s" % (k, str(r[k])[:800]))
+        return 1 if r.get("kind") in ("proof-obligation", "correspondence", "proof-hygiene") else 0
+    sp = RawSpec(r["spec"], r.get("bufsize"))
+    case = r.get("case") or {}
+    model = run_model(sp.text())
+    print("model: status=%s failed=%s tasks=%d" % (model["status"], model["failed"], len(model["tasks"])))
+    sc = Scratch()
+    try:
+        sc.plant(sp.files)
+        crash = None
+        if case.get("point"):
+            crash = "%s:%d" % tuple(case["point"])
+        ys = tuple(r["yield"]) if r.get("yield") else None
+        impl = run_impl(sc, sp, crash=crash, yield_seed=ys, timeout=120)
+        print("implementation: exit=%s returned=%s timed_out=%s%s" % (impl["rc"], impl["returned"], impl["timed_out"], (" (killed at %s)" % crash) if crash else ""))
+        bad = 0
+        if crash is None and model["status"] == "done" and not model["failed"]:
+            if impl["timed_out"] or impl["rc"] != 0:
+                print("  DIFFERENCE: the model completes, the implementation does not: %s" % impl["stderr"][-300:]); bad += 1
+            real = data_files(impl["fs"])
+            want = {p: c for p, c in model["files"].items() if not p.startswith("/")}
+            for k in sorted(set(real) | set(want)):
+                if real.get(k) != want.get(k):
+                    print("  DIFFERENCE at %r: implementation %r, model %r" % (k, (real.get(k) or "")[:80] if real.get(k) is not None else None, (want.get(k) or "")[:80] if want.get(k) is not None else None)); bad += 1
+            for p in leftovers(impl["fs"]):
+                print("  LEFTOVER %s" % p); bad += 1
+        else:
+            for k, m in atomicity_problems(sp, model, impl["fs"]):
+                print("  %s: %s" % (k, m)); bad += 1
+            if model["status"] == "done" and model["failed"] and impl["rc"] == 0:
+                print("  DIFFERENCE: a task fails in the model, the implementation exits 0"); bad += 1
+        for k, m in replay_problems(sp, model, impl, ("slots", "tasks", "net", "port") if crash is None else ("slots", "tasks"), crash=case.get("point")):
+            print("  %s: %s" % (k, m[:500])); bad += 1
+        print("reproduced" if bad else "not reproduced on this run (the reported problems may depend on the schedule or on a longer history: %s)" % [p[0] for p in (r.get("problems") or [])][:4])
+        return 1 if bad else 0
+    finally:
+        sc.close()
